@@ -538,14 +538,39 @@ def run(ctx) -> None:
         dup.mkdir()
         jobs_dup = [{"cwd": str(dup), "raw": ["IfStmt"], "file": f"plg/{n}.py", "prefix": "DUP", "stub": "fzf"} for n in ("first", "second")]
 
-        r_main = run_gen_jobs(jobs + jobs_furb + jobs_path + jobs_dup)
+        # the same destination twice: the second `refurb gen` must leave a check for the SECOND selection and prefix there
+        regen = d / "regen"
+        regen.mkdir()
+        jobs_regen = [
+            {"cwd": str(regen), "raw": ["CallExpr"], "file": "plg/again.py", "prefix": "RGA", "stub": "fzf"},
+            {"cwd": str(regen), "raw": ["NameExpr", "StrExpr"], "file": "plg/again.py", "prefix": "RGB", "stub": "fzf"},
+            {"cwd": str(regen), "raw": ["IfStmt"], "file": "plg/sub/other.py", "prefix": "RGC", "stub": "fzf"},
+            {"cwd": str(regen), "raw": ["WhileStmt", "ForStmt"], "file": "./plg/sub/../sub/other.py", "prefix": "RGC", "stub": "fzf"},
+        ]
+
+        r_main = run_gen_jobs(jobs + jobs_furb + jobs_path + jobs_dup + jobs_regen)
         r_ep = run_gen_jobs(jobs_ep, {"PYTHONPATH": str(site)})
         ids = r_main["ids"]
         ids_ep = r_ep["ids"]
         results = r_main["results"][: len(jobs)]
         results_furb = r_main["results"][len(jobs) : len(jobs) + len(jobs_furb)]
         results_path = r_main["results"][len(jobs) + len(jobs_furb) : len(jobs) + len(jobs_furb) + len(jobs_path)]
-        results_dup = r_main["results"][-2:]
+        results_dup = r_main["results"][-2 - len(jobs_regen) : -len(jobs_regen)]
+        results_regen = r_main["results"][-len(jobs_regen) :]
+        for jb, rr in zip(jobs_regen, results_regen):
+            res.case(("regen", jb["file"], tuple(jb["raw"])))
+            res.bump("regenerate_over_existing")
+            got_types = sorted((rr.get("types") or {}).get("ok") or [])
+            if rr.get("rc") != 0 or rr.get("exc") or got_types != sorted(jb["raw"]) or rr.get("prefix") != jb["prefix"]:
+                res.violate(
+                    f"`refurb gen` into {jb['file']} (selection {sorted(jb['raw'])}, prefix {jb['prefix']}) leaves a check there that the loader reads as types {got_types}, prefix {rr.get('prefix')} (the destination was written by an earlier `gen`)"
+                    if jb is not jobs_regen[0] and jb is not jobs_regen[2] else
+                    f"`refurb gen` into {jb['file']} (selection {sorted(jb['raw'])}, prefix {jb['prefix']}) is read back by the loader as types {got_types}, prefix {rr.get('prefix')}",
+                    {"kind": "regenerate-over-existing", "step": jobs_regen.index(jb)},
+                    {"steps": [{k: v for k, v in j.items() if k != "cwd"} for j in jobs_regen[: jobs_regen.index(jb) + 1]], "result": {k: rr.get(k) for k in ("rc", "exc", "types", "prefix", "code", "stdout")},
+                     "how": "in an empty directory answer the three prompts of `refurb gen` (node types, file name, prefix) with each step in turn; import the file and apply refurb.loader.extract_function_types / get_error_class"},
+                )
+                break
         res.notes.append(
             "get_next_error_id only sees built-in checks and entry-point plugins: two checks generated in a row with the new prefix DUP "
             "into a folder that is only `--load`ed got the codes %s (documented as best effort: 'if it cannot find it, it will default to 100')"
